@@ -7,9 +7,11 @@
 //   C  <hex cddl> <hex cbor>        cddl::validate_cbor_from_slice(cddl, cbor, None)
 //   V  <hex cddl> <hex csv> [h]     cddl::validate_csv_from_str(cddl, csv, Some(h == "1"), None)
 //   D  <hex cbor>                   cddl::validator::cbor_value::decode_cbor(bytes)
+//   G  <hex text>                   parse, then print the alias environment and the reference environment of the AST
+//                                   (detail = "<alias env>\t<ref env>", see fn graph); used by the classifiers only
 //   K  <n>                          driver self-test: n = 0 panic, 1 stack overflow, 2 huge allocation, 3 endless loop
 //
-// Output, one line per case:  <verdict>\t<microseconds>[\t<detail>]
+// Output, one line per case:  <verdict>\t<wall microseconds>\t<cpu microseconds of the main thread>[\t<detail>]
 //   verdict = OK | ERR | PANIC (detail = source location and message of the panic) | TIMEOUT
 // A stack overflow or an allocator abort kills the process; the Python side sees a short
 // output and the exit status, and restarts after the case that died.  The per-case watchdog
@@ -21,12 +23,127 @@ use std::time::{Duration, Instant};
 
 static DEADLINE_MS: AtomicU64 = AtomicU64::new(0); // 0 = no case running
 static PANIC_INFO: Mutex<String> = Mutex::new(String::new());
+static DETAIL: Mutex<String> = Mutex::new(String::new());
 
 fn unhex(s: &str) -> Vec<u8> {
   hex::decode(s).unwrap_or_default()
 }
 fn text(s: &str) -> String {
   String::from_utf8_lossy(&unhex(s)).into_owned()
+}
+
+// Reference collector over the crate's own AST visitor.
+struct Refs {
+  out: Vec<String>,    // every name mentioned; "^" appended when it carries or sits inside generic arguments
+  starts: Vec<String>, // names in a position from which the validators call the is_ident_* / *_from_ident helpers
+  in_generic: u32,
+}
+impl<'a, 'b> cddl::visitor::Visitor<'a, 'b, std::fmt::Error> for Refs {
+  fn visit_identifier(&mut self, ident: &cddl::ast::Identifier<'a>) -> cddl::visitor::Result<std::fmt::Error> {
+    self.out.push(format!("{}{}", ident, if self.in_generic > 0 { "^" } else { "" }));
+    Ok(())
+  }
+  fn visit_type1(&mut self, t1: &'b cddl::ast::Type1<'a>) -> cddl::visitor::Result<std::fmt::Error> {
+    use cddl::ast::{RangeCtlOp, Type2};
+    if let Some(op) = &t1.operator {
+      if let RangeCtlOp::CtlOp { .. } = op.operator {
+        if let Type2::Typename { ident, .. } = &t1.type2 {
+          self.starts.push(ident.to_string());
+        }
+        if let Type2::Typename { ident, .. } = &op.type2 {
+          self.starts.push(ident.to_string());
+        }
+      }
+    }
+    cddl::visitor::walk_type1(self, t1)
+  }
+  fn visit_type2(&mut self, t2: &'b cddl::ast::Type2<'a>) -> cddl::visitor::Result<std::fmt::Error> {
+    use cddl::ast::Type2;
+    match t2 {
+      Type2::Typename { ident, generic_args: Some(ga), .. } => {
+        self.out.push(format!("{}^", ident));
+        self.in_generic += 1;
+        let r = self.visit_generic_args(ga);
+        self.in_generic -= 1;
+        r
+      }
+      Type2::Unwrap { ident, generic_args, .. } => {
+        self.starts.push(ident.to_string());
+        if let Some(ga) = generic_args {
+          self.out.push(format!("{}^", ident));
+          return self.visit_generic_args(ga);
+        }
+        cddl::visitor::walk_type2(self, t2)
+      }
+      Type2::ChoiceFromGroup { ident, generic_args: Some(ga), .. } => {
+        self.out.push(format!("{}^", ident));
+        self.visit_generic_args(ga)
+      }
+      _ => cddl::visitor::walk_type2(self, t2),
+    }
+  }
+  fn visit_generic_args(&mut self, args: &'b cddl::ast::GenericArgs<'a>) -> cddl::visitor::Result<std::fmt::Error> {
+    self.in_generic += 1;
+    let r = cddl::visitor::walk_generic_args(self, args);
+    self.in_generic -= 1;
+    r
+  }
+  fn visit_type_groupname_entry(&mut self, entry: &'b cddl::ast::TypeGroupnameEntry<'a>) -> cddl::visitor::Result<std::fmt::Error> {
+    if let Some(ga) = &entry.generic_args {
+      self.out.push(format!("{}^", entry.name));
+      return self.visit_generic_args(ga);
+    }
+    cddl::visitor::walk_type_groupname_entry(self, entry)
+  }
+  fn visit_memberkey(&mut self, mk: &'b cddl::ast::MemberKey<'a>) -> cddl::visitor::Result<std::fmt::Error> {
+    if let cddl::ast::MemberKey::Bareword { ident, .. } = mk {
+      self.starts.push(ident.to_string());
+    }
+    cddl::visitor::walk_memberkey(self, mk)
+  }
+}
+
+// alias env: one entry per TYPE rule, "name:c1,c2,..." with ci the name when the first type2 of the
+//   i-th type choice is a bare name and "-" otherwise (exactly what is_ident_* looks at);
+// ref env: one entry per rule, "name|flags:r1,r2,..." all names mentioned in the body ("^" = generic edge),
+//   flags: "<" generic parameters, "/" choice alternate (/= or //=), "(" group rule;
+// starts: names in chase start positions (control target / controller, unwrap, bareword member key).
+fn graph(t: &str) -> Option<String> {
+  use cddl::ast::{Rule, Type2};
+  use cddl::visitor::Visitor;
+  let c = cddl::cddl_from_str(t, false).ok()?;
+  let mut alias = Vec::new();
+  let mut refs = Vec::new();
+  let mut starts = Vec::new();
+  for r in c.rules.iter() {
+    let (name, flags) = match r {
+      Rule::Type { rule, .. } => {
+        let cs: Vec<String> = rule
+          .value
+          .type_choices
+          .iter()
+          .map(|tc| match &tc.type1.type2 {
+            Type2::Typename { ident, .. } => ident.to_string(),
+            _ => "-".to_string(),
+          })
+          .collect();
+        alias.push(format!("{}:{}", rule.name, cs.join(",")));
+        (
+          rule.name.to_string(),
+          format!("{}{}", if rule.generic_params.is_some() { "<" } else { "" }, if rule.is_type_choice_alternate { "/" } else { "" }),
+        )
+      }
+      Rule::Group { rule, .. } => (
+        rule.name.to_string(),
+        format!("({}{}", if rule.generic_params.is_some() { "<" } else { "" }, if rule.is_group_choice_alternate { "/" } else { "" }),
+      ),
+    };
+    let mut v = Refs { out: Vec::new(), starts: Vec::new(), in_generic: 0 };
+    let _ = v.visit_rule(r);
+    refs.push(format!("{}|{}:{}", name, flags, v.out.join(",")));
+    starts.append(&mut v.starts);
+  }
+  Some(format!("{}\t{}\t{}", alias.join(";"), refs.join(";"), starts.join(",")))
 }
 
 fn verdict<T, E>(r: Result<T, E>) -> &'static str {
@@ -50,6 +167,15 @@ fn deep(n: u64) -> u64 {
 
 fn dispatch(parts: &[&str]) -> &'static str {
   match parts[0] {
+    "G" => match graph(&text(parts[1])) {
+      Some(g) => {
+        if let Ok(mut d) = DETAIL.lock() {
+          *d = g;
+        }
+        "OK"
+      }
+      None => "ERR",
+    },
     "P" => verdict(cddl::cddl_from_str(&text(parts[1]), false)),
     "S" => {
       let b = unhex(parts[1]);
@@ -95,6 +221,13 @@ fn dispatch(parts: &[&str]) -> &'static str {
   }
 }
 
+// CPU time of the main thread in microseconds (/proc/self/schedstat, first field, ns); wall time on failure
+fn cpu_us() -> Option<u128> {
+  let s = std::fs::read_to_string("/proc/self/schedstat").ok()?;
+  let ns: u128 = s.split_whitespace().next()?.parse().ok()?;
+  Some(ns / 1000)
+}
+
 fn main() {
   let case_ms: u64 = std::env::var("VERIF_CASE_MS").ok().and_then(|s| s.parse().ok()).unwrap_or(10000);
   std::panic::set_hook(Box::new(|info| {
@@ -126,7 +259,7 @@ fn main() {
     if d != 0 && epoch.elapsed().as_millis() as u64 > d {
       let so = io::stdout();
       let mut o = so.lock();
-      let _ = writeln!(o, "TIMEOUT\t{}", case_ms * 1000);
+      let _ = writeln!(o, "TIMEOUT\t{}\t{}", case_ms * 1000, case_ms * 1000);
       let _ = o.flush();
       std::process::exit(124);
     }
@@ -140,13 +273,26 @@ fn main() {
     let parts: Vec<&str> = line.split('\t').collect();
     DEADLINE_MS.store(epoch.elapsed().as_millis() as u64 + case_ms, Ordering::SeqCst);
     let t0 = Instant::now();
+    let c0 = cpu_us();
     let r = std::panic::catch_unwind(|| dispatch(&parts));
-    let us = t0.elapsed().as_micros();
+    let wall = t0.elapsed().as_micros();
+    let cpu = match (c0, cpu_us()) {
+      (Some(a), Some(b)) if b >= a => b - a,
+      _ => wall,
+    };
+    let us = format!("{}\t{}", wall, cpu);
     DEADLINE_MS.store(0, Ordering::SeqCst);
     let so = io::stdout();
     let mut o = so.lock();
     match r {
-      Ok(s) => writeln!(o, "{}\t{}", s, us).unwrap(),
+      Ok(s) => {
+        let d = DETAIL.lock().map(|mut g| std::mem::take(&mut *g)).unwrap_or_default();
+        if d.is_empty() {
+          writeln!(o, "{}\t{}", s, us).unwrap()
+        } else {
+          writeln!(o, "{}\t{}\t{}", s, us, d).unwrap()
+        }
+      }
       Err(_) => {
         let m = PANIC_INFO.lock().map(|g| g.clone()).unwrap_or_default();
         writeln!(o, "PANIC\t{}\t{}", us, m).unwrap()
